@@ -22,6 +22,7 @@ import (
 	"go4.org/jsonconfig"
 	"perkeep.org/pkg/blob"
 	"perkeep.org/pkg/blobserver"
+	"perkeep.org/pkg/index"
 	"perkeep.org/pkg/schema"
 	"perkeep.org/pkg/search"
 	"perkeep.org/pkg/sorted"
@@ -728,9 +729,111 @@ func c14Index(c *ctx, dir string) {
 	}
 }
 
+// ---- an upload that meets its dependency half-way: the lower layer (the blob source) is made to answer the file's
+// fetch of its chunk with "not there" and, before that answer reaches the index, another client stores the chunk and has
+// it indexed completely.  The file's upload is acknowledged; afterwards it must be indexed. ----
+type c14gatedSrc struct {
+	*test.Fetcher
+	mu     sync.Mutex
+	onMiss map[string]func() // ref -> run once when the ref is first asked for and missing
+}
+
+func (g *c14gatedSrc) Fetch(ctx context.Context, br blob.Ref) (io.ReadCloser, uint32, error) {
+	rc, n, err := g.Fetcher.Fetch(ctx, br)
+	if err != nil {
+		g.mu.Lock()
+		f := g.onMiss[br.String()]
+		delete(g.onMiss, br.String())
+		g.mu.Unlock()
+		if f != nil {
+			f() // the other client's upload of br happens here, in full, on its own goroutine
+		}
+	}
+	return rc, n, err
+}
+
+func c14IndexDeps(c *ctx) {
+	for round := 0; round < c.n(4, 30); round++ {
+		w, err := newWorld()
+		must(err)
+		kv := sorted.NewMemoryKeyValue()
+		ix, err := index.New(kv)
+		must(err)
+		src := &c14gatedSrc{Fetcher: new(test.Fetcher), onMiss: map[string]func(){}}
+		for _, s := range w.signers {
+			src.AddBlob(s.pub)
+		}
+		ix.KeyFetcher = w.pubs
+		ix.InitBlobSource(src)
+		if round%2 == 0 {
+			_, err := ix.KeepInMemory()
+			must(err)
+		}
+		npairs := 1 + c.rng.Intn(4)
+		type pair struct{ file, chunk *test.Blob }
+		var pairs []pair
+		var wg sync.WaitGroup
+		var emu sync.Mutex
+		var errs []string
+		deliver := func(b *test.Blob) {
+			src.AddBlob(b)
+			if _, err := ix.ReceiveBlob(context.Background(), b.BlobRef(), b.Reader()); err != nil {
+				emu.Lock()
+				errs = append(errs, err.Error())
+				emu.Unlock()
+			}
+		}
+		for i := 0; i < npairs; i++ {
+			content := fmt.Sprintf("chunk %d of round %d, seed %d", i, round, c.seed)
+			chunk := &test.Blob{Contents: content}
+			fb := schema.NewFileMap(fmt.Sprintf("file-%d-%d.txt", round, i))
+			must(fb.PopulateParts(int64(len(content)), []schema.BytesPart{{Size: uint64(len(content)), BlobRef: chunk.BlobRef()}}))
+			js, err := fb.JSON()
+			must(err)
+			file := &test.Blob{Contents: js}
+			pairs = append(pairs, pair{file, chunk})
+			ch := chunk
+			src.onMiss[chunk.BlobRef().String()] = func() {
+				done := make(chan struct{})
+				go func() { deliver(ch); close(done) }()
+				<-done
+			}
+		}
+		for _, p := range pairs {
+			wg.Add(1)
+			go func(p pair) { defer wg.Done(); c14jit(); deliver(p.file) }(p)
+		}
+		fin := make(chan struct{})
+		go func() { wg.Wait(); ix.VerifAwaitReindex(); close(fin) }()
+		where := fmt.Sprintf("index (corpus: %v), %d files whose chunk is stored and indexed by another client between the file's failed fetch and its registration as waiting (round %d)", round%2 == 0, npairs, round)
+		select {
+		case <-fin:
+		case <-time.After(60 * time.Second):
+			c.violation(-1, "c14-hang:index-deps", where+": did not finish within 60 s", nil)
+			continue
+		}
+		c.rep.SpecChecks++
+		c.count("backends", "index: upload meets its dependency half-way")
+		for _, e := range errs {
+			c.violation(-1, "c14-call-fails:index:receive", where+": "+e, nil)
+		}
+		needs, ready := ix.VerifPendingCounts()
+		for i, p := range pairs {
+			if _, err := ix.GetFileInfo(context.Background(), p.file.BlobRef()); err != nil {
+				c.violation(-1, "c14-index-acked-blob-never-indexed", fmt.Sprintf("%s: file #%d was acknowledged, its chunk is stored and indexed, and the file is still not indexed afterwards (GetFileInfo: %v; %d blobs still waiting, %d queued)", where, i, err, needs, ready), nil)
+				break
+			}
+		}
+		if needs != 0 || ready != 0 {
+			c.violation(-1, "c14-index-acked-blob-never-indexed", fmt.Sprintf("%s: every upload returned and every dependency is there, yet %d blobs still wait for a dependency and %d are queued", where, needs, ready), nil)
+		}
+		ix.Close()
+	}
+}
+
 func runC14(c *ctx) {
 	c.rep.Rule = "stores: memory, localdisk, diskpacked (300-byte packs: a roll-over every other upload; memory and leveldb index), blobpacked, encrypt, proxycache, shard, namespace, overlay, replica, cond, every layer and key/value index wrapped so that each lower-layer call is preceded and followed by a random yield or a sleep of up to 200 us; programs of 2-16 clients (16 in the first program per backend) x 3-6 calls (receive 30%, fetch 20%, stat 15%, enumerate 10%, remove 25%) over 2-5 blobs shared by all clients (the empty blob included), then stat+fetch of every blob and an enumerate; every call stamped with a tick of one atomic counter before and after; per ref, the calls (an enumerate counts as a read of every ref) go to the judge of coq/Model/C14.v; " +
-		"index+corpus: 2-6 feeders deliver permanodes and set/remove-attribute claims (each permanode's claims by one feeder, dates ascending) while 1-5 queriers run the search handler's query 'permanodes with tag=x' (sorted and unsorted) and describes; per permanode, claims are writes and queries are reads; the harness binary is built with -race and every report of the detector is a violation; non-trivial = a ref history with at least one pair of overlapping calls"
+		"index+corpus: 2-6 feeders deliver permanodes and set/remove-attribute claims (each permanode's claims by one feeder, dates ascending) while 1-5 queriers run the search handler's query 'permanodes with tag=x' (sorted and unsorted) and describes; per permanode, claims are writes and queries are reads; dependency races: a file schema blob is uploaded, the blob source answers the index's fetch of its chunk with 'not there' and, before that answer arrives, another client uploads the chunk and has it indexed completely: afterwards every acknowledged file must be indexed and nothing may still wait; the harness binary is built with -race and every report of the detector is a violation; non-trivial = a ref history with at least one pair of overlapping calls"
 	old := log.Writer()
 	log.SetOutput(io.Discard)
 	defer log.SetOutput(old)
@@ -740,4 +843,5 @@ func runC14(c *ctx) {
 	_ = rand.Int
 	c14Store(c, dir)
 	c14Index(c, dir)
+	c14IndexDeps(c)
 }
